@@ -38,6 +38,23 @@ for m in sorted(glob.glob(os.path.join(V, "seeded", "*", "meta.json"))):
     det = d.get("detected_by", {})
     out.append("| %s | %s | %s | %s | %s |" % (sid, d.get("property", ""), str(d.get("summary", "")).replace("|", "\\|").replace("\n", " ")[:300],
                str(d.get("needs", "")).replace("|", "\\|").replace("\n", " ")[:200], (det.get("verdict", "") + " " + det.get("kind", "") + " " + det.get("note", "")).strip()[:200]))
+out.append("\n### 9.5 Per-property status (generated from lib/propcfg and coq/Cxx/Properties.v)\n")
+import sys
+sys.path.insert(0, os.path.join(V, "lib"))
+import props as _props
+for pid in sorted(_props.PROPS):
+    c = _props.PROPS[pid]
+    pv = os.path.join(V, "coq", c.get("coq_dir", pid), "Properties.v")
+    thms = []
+    if os.path.exists(pv):
+        code = re.sub(r"\(\*.*?\*\)", " ", open(pv).read(), flags=re.S)
+        thms = re.findall(r"^\s*(?:Theorem|Lemma|Corollary)\s+([A-Za-z0-9_']+)", code, flags=re.M)
+    out.append("**%s** — %s\n" % (pid, c.get("technique", "")))
+    out.append("* theorems (%d): %s" % (len(thms), ", ".join("`%s`" % t for t in thms)))
+    if c.get("translators"):
+        out.append("* regenerated from source every run: %s" % ", ".join(c["translators"]))
+    out.append("* claim: %s" % c.get("text", ""))
+    out.append("* trusted / not covered: %s\n" % c.get("note", ""))
 gen = "\n".join(out) + "\n"
 p = os.path.join(V, "DESIGN.md")
 s = open(p).read()
